@@ -1,6 +1,6 @@
 # C18 - callback adapters fire exactly once with the right outcome
 import re
-from ..core import norm, relloc, live, calls, evs, Broken, value_origin, Tracer, fmt_trace, rooted, has_back_edge, cond_event
+from ..core import norm, relloc, live, calls, evs, Broken, value_origin, Tracer, fmt_trace, rooted, has_back_edge, cond_event, local_env, subst_path
 from .. import publish, witness
 from ..rules import *
 from . import C02
@@ -73,7 +73,11 @@ def conv_siblings(ctx, db):
             evl = list(lf.events())
             has_catch = any((b.get('label') or {}).get('kind') == 'catch' and (b['label'].get('type') == '...') for g in [lf] + helper_bodies(db, lf) for b in g['blocks'])
             pref = next((e for e in evl if e.k == 'decl' and e.get('ref') and 'promise<' in (e.get('type') or '') and '_prom' in (e.get('init') or '')), None)
-            pdecl = next((e for e in evl if e.k == 'decl' and not e.get('ref') and not e.get('ptr') and 'promise<' in (e.get('type') or '') and ('_prom' in (e.get('init') or '') or 'take_promise' in (e.get('init') or '') or re.search(r'call\(cocls::future_conv_promise_base::\w+\)', e.get('init') or ''))), None)
+            # the initialiser read through reference / pointer locals: promise<To> &stored = static_cast<future_conv *>(me)->_prom; promise<To> p = std::move(stored);
+            lenv = local_env(lf)
+            def _ini(e):
+                return subst_path(e.get('init') or '', lenv)
+            pdecl = next((e for e in evl if e.k == 'decl' and not e.get('ref') and not e.get('ptr') and 'promise<' in (e.get('type') or '') and ('_prom' in _ini(e) or 'take_promise' in _ini(e) or re.search(r'call\(cocls::future_conv_promise_base::\w+\)', _ini(e)))), None)
             bad = None
             if not has_catch:
                 bad = 'no catch(...) handler: an exception thrown by the source or the converter escapes a noexcept resume function (terminate) and the outer future is never resolved'
@@ -85,6 +89,8 @@ def conv_siblings(ctx, db):
                 bad = 'the local promise lives inside the try block: it is destroyed (dropping the outer future) before the handler can deliver the exception'
             else:
                 pv = 'local:' + pdecl['var']
+                # a local initialised by a call is named by that call on the expanded paths (promise<To> p = _this->take_promise();)
+                pvs = {pv, lenv.get(pv, pv)}
                 trs = T.traces(lf)
                 ctx.paths(rid, len(trs))
                 nexc = 0
@@ -93,8 +99,8 @@ def conv_siblings(ctx, db):
                         continue
                     exc = any(it.k == 'exception' for it in tr)
                     pc = [c for c in calls(tr) if norm(c.get('callee')) in PROM_CALL]
-                    mine = [c for c in pc if (c.get('recv') == pv or c.get('orecv') == pv)]
-                    deleg = [c for c in calls(tr) if c.k == 'call' and any(a.get('path') == pv or a.get('opath') == pv for a in c.get('args', [])) and norm(c.get('callee') or '') not in PROM_CALL and norm(c.get('callee') or '') not in ('std::move',) and not c.get('expanded')]
+                    mine = [c for c in pc if (c.get('recv') in pvs or c.get('orecv') == pv)]
+                    deleg = [c for c in calls(tr) if c.k == 'call' and any(a.get('path') in pvs or a.get('opath') == pv for a in c.get('args', [])) and norm(c.get('callee') or '') not in PROM_CALL and norm(c.get('callee') or '') not in ('std::move',) and not c.get('expanded')]
                     if exc:
                         nexc += 1
                         # events before the throw that already resolved would make it twice
@@ -146,10 +152,21 @@ def self_owning(ctx, db):
                 bad = bad or ('the callback does not receive the helper\'s own future', tr)
         ctx.ob(rid, lf, lf['key'], bad is None, 'future_with_cb: callback once, then delete once, nothing after' + ('' if not bad else ' -- ' + bad[0]), desc=bad[0] if bad else None)
     # the resume function of discard's awaiter: whatever its constructor installs (a named static member or a capture-less lambda)
-    ctors = [f for f in db.all_instances() if f['nname'].startswith('cocls::discard') and f['nname'].endswith('::Awt::Awt')]
+    # found by what the code does, not by a name: the object discard() creates with new is an awaiter (a class local to discard or a named class
+    # elsewhere - detail::discarded_future<Fn>); the function its constructor installs as resume function is the one that must delete it
+    ctors = []
+    for g in [x for x in db.all_instances() if x['nname'] == 'cocls::discard' and not x.get('lambda')]:
+        if not any(e.k == 'new' for e in g.events()):
+            continue
+        for e in g.events():
+            c = db.resolve(g, e['callee_key'], e.get('callee_inst')) if e.k == 'construct' and e.get('callee_key') else None
+            if c is not None and c.get('kind') == 'ctor' and derives(db, class_of(db, c), 'cocls::awaiter') and (c['key'], c.get('inst')) not in {(x['key'], x.get('inst')) for x in ctors}:
+                ctors.append(c)
+    if not ctors:
+        ctors = [f for f in db.all_instances() if f['nname'].startswith('cocls::discard') and f['nname'].endswith('::Awt::Awt')]
     fins = resume_bodies(db, ctors) or [f for f in db.all_instances() if f['nname'].startswith('cocls::discard') and f['nname'].endswith('::fin')]
     if not fins:
-        raise Broken('discard::Awt::fin not found')
+        raise Broken('the resume function of the self-deleting awaiter that discard() allocates was not found (%d constructor(s) of an awaiter class created by discard)' % len(ctors))
     f = fins[0]
     dl = [e for e in f.events() if e.k == 'delete']
     ctx.ob(rid, f, f['key'], len(dl) == 1 and not has_back_edge(f), 'discard\'s awaiter deletes itself exactly once', desc='discard::Awt::fin does not delete exactly once')
@@ -184,9 +201,23 @@ def callback_coro(ctx, db):
     fns = db.fns('cocls::_details::callback_await_coro')
     if not fns:
         raise Broken('callback_await_coro not instantiated')
-    T = htracer(db, exc=lambda ev: ev.k == 'co_await' and not ev.get('implicit_await'))
+    # the invocation may be handed to a small reporter function that receives the callback (reporter::value(fn, &co_await awt), reporter::failed(fn)):
+    # whatever library function is handed the callback itself is expanded, the callback is then invoked under the coroutine's own parameter
+    def handed_callback(caller, ev, callee):
+        if callee.get('coroutine'):
+            return False
+        for a in ev.get('args') or []:
+            m = re.fullmatch(r'(?:move|forward)\((.*)\)', a.get('path') or '')
+            if (m.group(1) if m else a.get('path')) == cbname[0]:
+                return True
+        return False
+    cbname = ['param:fn']
+    T = htracer(db, extra=handed_callback, exc=lambda ev: ev.k == 'co_await' and not ev.get('implicit_await'))
     seen_bad = None; n = 0
     for f in fns:
+        if len(f.get('params') or []) > 1 and f['params'][1].get('name'):
+            cbname[0] = 'param:' + f['params'][1]['name']          # callback_await_coro(Alloc &, Fn fn, Args ... args)
+        cbp = cbname[0]
         has_catch = any((b.get('label') or {}).get('kind') == 'catch' and b['label'].get('type') == '...' for b in f['blocks'])
         if not has_catch:
             seen_bad = (f, 'no catch(...) handler'); continue
@@ -196,7 +227,7 @@ def callback_coro(ctx, db):
             if not live(tr):
                 continue
             n += 1
-            cb = [c for c in calls(tr) if c.k == 'call' and (c.get('recv') == 'param:fn' or (c.get('callee_expr') or '').startswith('param:fn'))]
+            cb = [c for c in calls(tr) if c.k == 'call' and (c.get('recv') == cbp or re.match(re.escape(cbp) + r'(?!\w)', c.get('callee_expr') or ''))]
             if len(cb) != 1:
                 seen_bad = seen_bad or (f, 'the callback runs %d times on a path (%s)' % (len(cb), 'exception' if any(it.k == 'exception' for it in tr) else 'value'))
             elif any(it.k == 'exception' for it in tr) and not _in_catch(tr, cb[0]):
@@ -208,6 +239,35 @@ def callback_coro(ctx, db):
            desc=seen_bad[1] if seen_bad else None, inst=(seen_bad[0]['inst'] if seen_bad else None))
 
 
+def _sites_behind(db, T, name, depth=3):
+    """the entry point may hand the work to a callable object of a named class instead of a lambda (return Starter<Fn>{*this, fn}; - the future's
+    constructor, a template over the callable, invokes its call operator): the call graph is followed from `name` through such library
+    templates, and the first functions of the entry point's own class family (is_helper) whose expanded paths complete the adapter are the sites"""
+    roots = db.fns(name, lambdas=True)
+    seen = set(); level = [(r, r) for r in roots[:24]]
+    for _ in range(depth):
+        nxt = []; found = []
+        for root, g in level:
+            for e in g.events():
+                if e.k not in ('call', 'construct') or not e.get('callee_key'):
+                    continue
+                c = db.resolve(g, e['callee_key'], e.get('callee_inst'))
+                if c is None or (c['key'], c.get('inst')) in seen or c.get('coroutine'):
+                    continue
+                seen.add((c['key'], c.get('inst')))
+                if is_helper(db, root, c):
+                    if any(it.k == 'call' and norm(it.get('callee')) == 'cocls::awaiter::resume' for tr in T.traces(c) for it in tr):
+                        found.append(c)
+                    else:
+                        nxt.append((root, c))
+                elif g is root or is_helper(db, root, g):
+                    nxt.append((root, c))      # a foreign function called by the family (the future's constructor): looked through once
+        if found:
+            return found
+        level = nxt
+    return []
+
+
 def refused_completes(ctx, db):
     rid = ctx.rule('C18.refused-completes-now', 'PATHS', 'future_conv (both entry forms), call_fn_future_awaiter and discard: when the source future refuses the registration (already resolved) the '
                    'adapter\'s resume() is called at once on exactly that edge, and never on the registered edge', floor=4)
@@ -217,6 +277,8 @@ def refused_completes(ctx, db):
         fs = [f for f in db.fns(name, lambdas=True)] + lambdas_of(db, name)
         fs = [f for f in fs if any(e.k == 'call' and norm(e.get('callee')) == 'cocls::awaiter::resume' for e in f.events())] or \
              [f for f in sorted(fs, key=lambda g: not g.get('lambda'))[:24] if any(e.k == 'call' for e in f.events()) and any(it.k == 'call' and norm(it.get('callee')) == 'cocls::awaiter::resume' for tr in T.traces(f) for it in tr)]
+        if not fs:
+            fs = _sites_behind(db, T, name)
         if not fs:
             raise Broken('no immediate-completion site found in ' + name)
         targets.append((name, fs))
